@@ -34,6 +34,7 @@ type Ctx struct {
 	Notes []string
 	Analysed map[string]int
 	start time.Time
+	walkCache []*walkInfo
 }
 
 type Floor struct {
@@ -175,6 +176,13 @@ func (c *Ctx) finish(level, explanation string, assumptions []string) int {
 	for i := 0; i < len(c.Obls) && len(samples) < 12; i += step {
 		samples = append(samples, c.Obls[i])
 	}
+	if assumptions == nil {
+		assumptions = []string{}
+	}
+	assumptions = append(assumptions,
+		"go/parser, go/types and go/ssa (x/tools v0.50.0) represent the analysed sources faithfully",
+		"the guard/provenance tables in ggverif are a faithful transcription of the property statement",
+		"nothing of the analysed program is executed: obligations are structural necessary conditions, not the behavioural iff")
 	rulesSeen := map[string]int{}
 	for _, o := range c.Obls {
 		rulesSeen[o.Rule]++
